@@ -100,34 +100,35 @@ theorem Dispatch.governs {c : Cls} {o : Obj} {name : Name} {b : Bool} {r : Excep
 
 /-- The lookup of `has_traits_getattro` once `__dict__` and the type have no
 entry (ctraits.c:862-881). -/
-def resolveGet (w : World) (o : Obj) (c : Cls) (name : Name) : World × Except Exc Trait :=
+def resolveGet (w : World) (oi : Nat) (o : Obj) (c : Cls) (name : Name) : World × Except Exc Trait :=
   match trait0 c o name with
   | some t => (w, .ok t)
-  | none => getPrefixTrait w o c name false
+  | none => getPrefixTrait w oi o c name false
 
-theorem resolveGet_spec (w : World) (o : Obj) (c : Cls) (name : Name) :
-    Resolved w o c name (resolveGet w o c name).1 ∧ Dispatch c o name false (resolveGet w o c name).2 := by
+theorem resolveGet_spec (w : World) {oi : Nat} {o : Obj} (c : Cls) (name : Name)
+    (hh : o.hooks = []) (ho : w.objs[oi]? = some o) :
+    Resolved w o c name (resolveGet w oi o c name).1 ∧ Dispatch c o name false (resolveGet w oi o c name).2 := by
   unfold resolveGet
   cases h0 : trait0 c o name with
   | some t => exact ⟨.same, trait0_dispatch false h0⟩
   | none =>
     obtain ⟨hi, hct⟩ := trait0_none h0
-    refine ⟨getPrefixTrait_resolved w false hi hct, ?_⟩
+    refine ⟨getPrefixTrait_resolved w false hi hct hh ho, ?_⟩
     cases hp : prefixTrait c o name false with
     | error e => simp only [getPrefixTrait_error hp]; exact .pref hi hct hp
-    | ok t => simp only [getPrefixTrait_ok hp hi]; exact .pref hi hct hp
+    | ok t => simp only [getPrefixTrait_ok hp hi hh ho]; exact .pref hi hct hp
 
 /-- `getattro` is: `__dict__` hit, else type attribute (only when no trait of
 that name exists yet), else the getter of the trait `resolveGet` finds. -/
 theorem getattro_eq_resolveGet (E : Env) (w : World) (oi : Nat) (o : Obj) (c : Cls) (name : Name)
     (hd : o.dict.get name = none) (hca : E.classAttr name = none) :
     getattro E w oi o c name =
-      match resolveGet w o c name with
+      match resolveGet w oi o c name with
       | (w', .error e) => (w', .error e)
       | (w', .ok t) =>
         match getattrKind E t o.dict name with
         | .error e => (w', .error e)
-        | .ok (v, d) => (setDict w' oi o d, .ok (.val v)) := by
+        | .ok (v, d) => (setDict w' oi d, .ok (.val v)) := by
   unfold getattro resolveGet
   rw [hd]
   simp only
@@ -135,7 +136,7 @@ theorem getattro_eq_resolveGet (E : Env) (w : World) (oi : Nat) (o : Obj) (c : C
   | some t => rfl
   | none =>
     simp only [hca]
-    rcases getPrefixTrait w o c name false with ⟨w', r⟩
+    rcases getPrefixTrait w oi o c name false with ⟨w', r⟩
     cases r with
     | error e => rfl
     | ok t =>
@@ -309,6 +310,7 @@ theorem noDeleg_init : NoDeleg World.init := by
                                exact mkClass_plain (by intro b hb; cases hb) (by decide)) (by decide)
     · exact mkClass_plain (by intro b hb; simp at hb; subst hb;
                                exact mkClass_plain (by intro b hb; cases hb) (by decide)) (by decide)
+  · intro o ho; simp [World.init] at ho
   · intro o ho; simp [World.init] at ho
 
 theorem inv_init : Inv World.init := by
